@@ -191,9 +191,19 @@ def read_state(obj, eng=None):
         A = dict(A)
         for name in PUBLIC:
             A[PFX + name] = public(eng, obj, name)
+    # private fields without an accessor may be absent in an implementation that keeps its summary differently: they read as
+    # their initial values and are listed in st['missing'] (the harnesses that start from the constructor do not need them;
+    # the inductive step does and reports 'not applicable')
+    missing = []
+
+    def priv(name, default):
+        if PFX + name in A:
+            return A[PFX + name]
+        missing.append(name)
+        return default
     st = dict(d=zenum(A[PFX + 'dealer']), v=zenum(A[PFX + 'vul']), a=zenum(A[PFX + 'active_player']),
-              lb=zenum(A[PFX + 'last_bidder']), lbid=zenum(A[PFX + 'last_bid']),
-              x=zbool(A[PFX + 'called_x']), xx=zbool(A[PFX + 'called_xx']))
+              lb=zenum(priv('last_bidder', None)), lbid=zenum(priv('last_bid', None)),
+              x=zbool(priv('called_x', False)), xx=zbool(priv('called_xx', False)), missing=missing)
     h = A[PFX + 'bid_history']
     if isinstance(h, SList):
         st['H'], st['n'] = h.arr, h.n
@@ -206,7 +216,8 @@ def read_state(obj, eng=None):
             st['Hp'][p], st['np'][p] = l.arr, l.n
         else:
             st['Hp'][p], st['np'][p] = [zenum(b) for b in l], z3.IntVal(len(l))
-    st['dc'] = {(pr, s): zenum(A[PFX + 'declarer_check'][Pair(pr)][Suit(s)]) for pr in (1, 2) for s in range(1, 6)}
+    dct = priv('declarer_check', {Pair(pr): {Suit(s): None for s in range(1, 6)} for pr in (1, 2)})
+    st['dc'] = {(pr, s): zenum(dct[Pair(pr)][Suit(s)]) for pr in (1, 2) for s in range(1, 6)}
     av = A[PFX + 'available_bid']
     if not isinstance(av, SArr):
         raise symx.Unsupported('available_bid is not a 38-slot vector model')
@@ -646,6 +657,111 @@ def case_bmc(props, dealer, K, first=None, only=None):
     return hx.explore_case(path, dict(max_paths=400000))
 
 
+# --------------------------------------------------------------------------
+# H4: the longest possible auction.  Its first L calls are concrete (they run through the interpreter on the object built by
+# the real constructor, the reference machine is folded alongside), then ONE symbolic call out of the 38 is offered and, if it
+# ends the auction, one more.  Covers the states at the far end of the history space (length counters, buffers, the 7NT
+# redoubled ceiling), which the induction reaches only through an invariant that does not describe implementation buffers.
+# --------------------------------------------------------------------------
+def maximal_auction():
+    cs = [PASS, PASS, PASS]
+    for b in range(1, 36):
+        cs += [b, PASS, PASS, X, PASS, PASS, XX, PASS, PASS]
+    return cs + [PASS]          # 3 + 35 * 9 + 1 = 319 calls
+
+
+def _simp(S):
+    return {k: ({kk: z3.simplify(vv) for kk, vv in v.items()} if isinstance(v, dict) else z3.simplify(v)) for k, v in S.items()}
+
+
+def case_long(props, dealer, cut):
+    from bridge_env import Bid, BiddingPhase, BiddingPhaseState, Player, Vul
+    prefix = maximal_auction()[:319 - 1 - cut]
+
+    def path(eng):
+        v = z3.Int('vul')
+        eng.assume(z3.And(1 <= v, v <= 4))
+        obj = eng.construct(BiddingPhase, [Player(dealer), SEnum(Vul, v)], {})
+        S = ref_init(z3.IntVal(dealer))
+        chk = []
+
+        def add(tags, label, cond):
+            for p in sorted(tags & props):
+                chk.append((f'{p}: {label}', cond))
+        c, c2 = z3.Int('call'), z3.Int('call2')
+        eng.assume(z3.And(c >= 1, c <= 38, c2 >= 1, c2 <= 38))
+
+        def cexf(upto, offered):
+            return lambda m: {'kind': 'auction', 'props': sorted(props), 'dealer': dealer, 'vul': hx.mval(m, v),
+                              'history': prefix[:upto] + [hx.mval(m, z) for z in offered], 'call': None, 'bmc': True}
+        for i, pc in enumerate(prefix):
+            try:
+                r = eng.call_function(BiddingPhase.take_bid, [obj, Bid(pc)], {})
+            except symx.RaiseEx as e:
+                return dict(outcome='raise', cex=cexf(i + 1, []),
+                            checks=[(f'{p}: call {i} of the longest auction ({Bid(pc)}) is accepted, not {type(e.exc).__name__}', False) for p in sorted(props)])
+            if isinstance(r, SEnum):
+                r = eng.concretize_enum(r)
+            if r is not BiddingPhaseState.ONGOING:
+                return dict(outcome='raise', cex=cexf(i + 1, []),
+                            checks=[(f'{p}: call {i} of the longest auction ({Bid(pc)}) leaves the auction open, not {r}', False) for p in sorted(props)])
+            S = _simp(ref_step(S, z3.IntVal(pc)))
+        L = len(prefix)
+        pre = snapshot(read_state(obj, eng))
+        add({'C01', 'C02'}, f'after {L} calls of the longest auction: turn, history length and available vector follow the Laws',
+            z3.And(pre['a'] == S['a'], pre['n'] == L, z3.And([pre['av'][j] == avail_ref(S)[j] for j in range(38)])))
+        cex = cexf(L, [c])
+        try:
+            r = eng.call_function(BiddingPhase.take_bid, [obj, SEnum(Bid, c)], {})
+        except symx.RaiseEx as e:
+            add({'C01', 'C02', 'C03'}, f'call {L}: take_bid does not raise in a live auction ({type(e.exc).__name__})', False)
+            return dict(outcome='raise', checks=chk, cex=cex)
+        if isinstance(r, SEnum):
+            r = eng.concretize_enum(r)
+        post = read_state(obj, eng)
+        if r is BiddingPhaseState.ILLEGAL:
+            add({'C01'}, f'call {L}: a rejected call is illegal', z3.Not(legal(S, c)))
+            for label, cond in unchanged(pre, post).items():
+                add(REJECT_TAGS.get(label, {'C01'}), f'call {L} rejected: ' + label, cond)
+            return dict(outcome='ILLEGAL', checks=chk, cex=cex)
+        add({'C01'}, f'call {L}: an accepted call is legal', legal(S, c))
+        hist = [z3.IntVal(x) for x in prefix] + [c]
+        add({'C02'}, f'after call {L}: common history is the accepted calls', _arr_eq(post['H'], hist))
+        for p in range(1, 5):
+            mine = [hist[j] for j in range(len(hist)) if (dealer - 1 + j) % 4 + 1 == p]
+            add({'C02'}, f'after call {L}: seat {p} list is its share of the history', _arr_eq(post['Hp'][p], mine))
+        S2 = ref_step(S, c)
+        k, con = read_contract(eng, obj)
+        if r is BiddingPhaseState.FINISHED:
+            add({'C02'}, f'call {L}: FINISHED exactly when the auction must end', ends(S, c))
+            add({'C02'}, 'no active player after the end', post['a'] == 0)
+            if k != 'ret' or con is None:
+                add({'C03'}, 'a contract is reported at the end', False)
+            else:
+                cf = contract_fields(con)
+                own = z3.IntVal(0)
+                for (pr, su), who in S2['dc'].items():
+                    own = z3.If(z3.And(side(S2['lb']) == pr, suit_of(S2['lbid']) == su), who, own)
+                add({'C03'}, 'contract = last bid / doubling status / vulnerability / first of the side to name the strain',
+                    z3.And(cf['vul'] == v, cf['final_bid'] == S2['lbid'], cf['declarer'] == own,
+                           status(cf['x'], cf['xx']) == status(S2['x'], S2['xx'])))
+            pre2 = snapshot(read_state(obj, eng))
+            cex = cexf(L, [c, c2])
+            try:
+                eng.call_function(BiddingPhase.take_bid, [obj, SEnum(Bid, c2)], {})
+                add({'C02'}, 'a call after the end is refused with an error', False)
+            except symx.RaiseEx:
+                for label, cond in unchanged(pre2, read_state(obj, eng)).items():
+                    add({'C02'}, 'a call after the end: ' + label, cond)
+            return dict(outcome='FINISHED', checks=chk, cex=cex)
+        add({'C02'}, f'call {L}: ONGOING exactly when the auction has not ended', z3.Not(ends(S, c)))
+        add({'C01', 'C02'}, f'after call {L}: turn passes to the left', post['a'] == S2['a'])
+        add({'C01'}, f'after call {L}: available vector = legal set', z3.And([post['av'][j] == avail_ref(S2)[j] for j in range(38)]))
+        add({'C03'}, f'after call {L}: no contract before the end', k == 'ret' and con is None)
+        return dict(outcome='ONGOING', checks=chk, cex=cex)
+    return hx.explore_case(path, dict(max_paths=5000))
+
+
 def build_cases(props, tier, K_quick, K_thorough, deep=None):
     cs = [(case_init, 'H0 constructor establishes the invariant', dict(props=props)),
           (case_step, 'H1 one call from an arbitrary live auction state', dict(props=props))]
@@ -659,6 +775,10 @@ def build_cases(props, tier, K_quick, K_thorough, deep=None):
         for first in [a + b + c for a in 'PBO' for b in 'PBO' for c in 'PBO']:
             cs.append((case_bmc, f'H2 BMC dealer={d} first three calls in classes {first} (P pass, B bid, O X/XX) K={K}',
                        dict(props=props, dealer=d, K=K, first=first)))
+    for d in range(1, 5):
+        for cut in ((0, 2, 6) if tier != 'thorough' else (0, 1, 2, 3, 5, 6, 9, 14)):
+            cs.append((case_long, f'H4 longest auction: its first {318 - cut} calls, then one symbolic call, dealer={d}',
+                       dict(props=props, dealer=d, cut=cut)))
     if deep:
         Kd = deep[1] if tier == 'thorough' else deep[0]
         for d in range(1, 5):
